@@ -6,6 +6,9 @@ correspond  : unit U-links — Model/Renumber.lean (link, setNumber, write) vs M
               write_to_file; the written file is read by the Lean Spec (drv_spec) and compared number by number
 judge       : reference graph of the written file (Spec) vs the graph of the original transported along the
               renumbering; own numbers; nothing else changed relative to the unedited write
+histories   : number assignments, interleaved with reference-preserving operations that are not number assignments
+              (c04lib.NEUTRAL: add_cell_children_to_problem, re-append, geometry edits that add a leaf); model
+              Edit/stepE/runE, theorems C04_relink_frame / C04_wf_stepE / C04_history_neutral (Props/C04Neutral.lean)
 """
 
 import glob
@@ -256,7 +259,11 @@ def run(chk):
         "renumber-then-restore, rotations inside a kind, rejected assignments (number in use, 0, negative), one number migrating through "
         "all kinds, and 'coincide' (an object whose number is also carried by another kind is renumbered / swapped / rotated while the "
         "other kind keeps the number; every third generated problem draws the numbers of all kinds from one small pool), over "
-        "cells, surfaces, materials, transforms and universes. Non-trivial = at least one assignment was accepted and the problem "
+        "cells, surfaces, materials, transforms and universes; and the same histories with operations that are not number assignments "
+        "and take no reference away interleaved and (mostly) placed between the last renumbering and the write: "
+        "problem.add_cell_children_to_problem(), the last member of problem.cells/surfaces/transforms removed and appended again, "
+        "cell.geometry = cell.geometry & +surface / & -surface / & ~cell (the 'before' of such a case is the problem with these operations "
+        "alone); on the four small problems every swap inside a kind followed by each kind of such operation. Non-trivial = at least one assignment was accepted and the problem "
         "has at least one modelled reference; distinct = distinct (text, history)."
     )
     chk.assumptions = [
